@@ -140,6 +140,30 @@ def main(tier="quick"):
     print("%-34s %s   (DWT1DForward storing h1 unreversed -> %d deviations)" % ("MC_Ctor binding", "ok" if t5 else "FAILED",
                                                                               r2.extra.get("ctor_deviations", 0)))
     ok &= t5
+    # ---- (e) every evidence file present validates against the evidence schema (jsonschema from the tooling venv when it is
+    # there, the level's required keys otherwise)
+    import glob
+    import json
+    import subprocess
+    bad = []
+    files = sorted(glob.glob(os.path.join(common.EVIDENCE, "C*.json")))
+    code = ("import json,sys,jsonschema; s=json.load(open('/root/.vp/EVIDENCE.schema.json'));\n"
+            "for f in sys.argv[1:]:\n"
+            "    try: jsonschema.validate(json.load(open(f)), s)\n"
+            "    except Exception as e: print('INVALID', f, str(e)[:120])\n")
+    try:
+        p = subprocess.run(["python3-vt", "-c", code] + files, stdout=subprocess.PIPE, stderr=subprocess.STDOUT, text=True, timeout=120)
+        bad = [l for l in p.stdout.splitlines() if l.startswith("INVALID")] if p.returncode == 0 else ["validator failed: " + p.stdout[-200:]]
+    except Exception:   # noqa   (no tooling venv: structural check)
+        for f in files:
+            e = json.load(open(f))
+            c = e.get("coverage", {})
+            if not all(k in e for k in ("property_id", "tier", "seed", "level", "coverage", "wall_s")) or not c.get("samples") \
+                    or c.get("states", 0) < 1 or c.get("transitions", 0) < 1:
+                bad.append("INVALID " + f)
+    t6 = not bad
+    print("%-34s %s   (%d evidence files validated%s)" % ("evidence schema", "ok" if t6 else "FAILED", len(files), "" if t6 else ": " + "; ".join(bad[:3])))
+    ok &= t6
     for m in rep.machinery[:5]:
         print("machinery:", m)
     ok &= not rep.machinery
